@@ -312,7 +312,9 @@ class SoftwareSwitchBase (object):
       self.send_error(type=OFPET_FLOW_MOD_FAILED, code=OFPFMFC_BAD_COMMAND,
                       ofp=ofp, connection=connection)
       return
-    handler(flow_mod=ofp, connection=connection, table=self.table)
+    r = handler(flow_mod=ofp, connection=connection, table=self.table)
+    if r is False:
+      return # Rejected (error already sent) -- leave the buffer alone
 
     if ofp.buffer_id is not None:
       self._process_actions_for_packet_from_buffer(ofp.actions, ofp.buffer_id,
@@ -781,7 +783,7 @@ class SoftwareSwitchBase (object):
         self.send_error(type=OFPET_FLOW_MOD_FAILED,
                         code=OFPFMFC_BAD_EMERG_TIMEOUT,
                         ofp=flow_mod, connection=connection)
-        return
+        return False
       if flow_mod.flags & OFPFF_SEND_FLOW_REM:
         # Emergency flows can't send removal messages, we we might want to
         # reject this early.  Sadly, there's no error code for this, so we just
@@ -791,14 +793,14 @@ class SoftwareSwitchBase (object):
         self.send_error(type=OFPET_FLOW_MOD_FAILED,
                         code=OFPFMFC_EPERM,
                         ofp=flow_mod, connection=connection)
-        return
+        return False
       #NOTE: An error is sent anyways because the current implementation does
       #      not support emergency entries.
       self.log.warn("Rejecting emergency flow (not supported)")
       self.send_error(type=OFPET_FLOW_MOD_FAILED,
                       code=OFPFMFC_ALL_TABLES_FULL,
                       ofp=flow_mod, connection=connection)
-      return
+      return False
 
     new_entry = TableEntry.from_flow_mod(flow_mod)
 
@@ -807,7 +809,7 @@ class SoftwareSwitchBase (object):
         # Another entry overlaps. Do not add.
         self.send_error(type=OFPET_FLOW_MOD_FAILED, code=OFPFMFC_OVERLAP,
                         ofp=flow_mod, connection=connection)
-        return
+        return False
 
     if flow_mod.command == OFPFC_ADD:
       # Exactly matching entries have to be removed if OFPFC_ADD
@@ -818,7 +820,7 @@ class SoftwareSwitchBase (object):
       self.send_error(type=OFPET_FLOW_MOD_FAILED,
                       code=OFPFMFC_ALL_TABLES_FULL,
                       ofp=flow_mod, connection=connection)
-      return
+      return False
 
     table.add_entry(new_entry)
 
@@ -838,13 +840,13 @@ class SoftwareSwitchBase (object):
 
     if not modified:
       # if no matching entry is found, modify acts as add
-      self._flow_mod_add(flow_mod, connection, table)
+      return self._flow_mod_add(flow_mod, connection, table)
 
   def _flow_mod_modify_strict (self, flow_mod, connection, table):
     """
     Process an OFPFC_MODIFY_STRICT flow mod sent to the switch.
     """
-    self._flow_mod_modify(flow_mod, connection, table, strict=True)
+    return self._flow_mod_modify(flow_mod, connection, table, strict=True)
 
   def _flow_mod_delete (self, flow_mod, connection, table, strict=False):
     """
